@@ -65,9 +65,9 @@ def run_real(S, n, chooser):
 
 
 def oracle(n, res, obs):
+    bad = ["the preserved callable changed process-wide state: %s" % c for c in getattr(res, "state_changes", [])]
     if res.deadlock:
-        return ["threads deadlocked at %s" % sorted(res.deadlock.items())]
-    bad = []
+        return bad + ["threads deadlocked at %s" % sorted(res.deadlock.items())]
     oks = [i for i, o in enumerate(obs["outcomes"]) if o and o[0] == "ok"]
     others = [o for i, o in enumerate(obs["outcomes"]) if i not in oks]
     if len(obs["ran"]) != 1:
